@@ -315,7 +315,7 @@ def golombProblem (markNb : Nat) (symmetryBreaking : Bool := true) : Problem :=
            [ (⟨[gIndex markNb i j, last], .affineLeq,
                [1, -1, -(sumFirst ((markNb : Int) - 1 - ((j : Int) - i)))]⟩ : RawC) ]
          else [])) ++
-     (if symmetryBreaking then
+     (if symmetryBreaking && decide (2 < markNb) then
         [ ⟨[gIndex markNb 0 1, gIndex markNb (markNb - 2) (markNb - 1)], .affineLeq, [1, -1, -1]⟩ ]
       else []))
 
